@@ -114,7 +114,9 @@ def explore(root, tier, ctx):
             svs = [s for s in svs if len(s) <= 2]
     for sv in svs:
         for nk in NOTES:
-            for ov in (None, 100.0):
+            for ov in (None, 100.0, "i64", "f32"):
+                if isinstance(ov, str) and (nk != "hits" or len(sv) > 1):
+                    continue  # the override given as a numpy scalar (what `m.bpms.bpm.min()` returns): on the plain note layout
                 if tier == "quick" and (ov is not None or nk != "hits") and (len(sv) > 1 or (ov is not None and nk != "hits")):
                     continue
                 if tier == "thorough" and ov is not None and nk != "hits":
@@ -212,6 +214,10 @@ def check_one(game, bp, svs, nk, ov, ctx):
         ctx.check("dominant.argmax", d in {float(x) for x in doms}, site=site, case=case, observed=d, expected=sorted(doms))
     except Exception as e:
         ctx.check("dominant.raises", False, site=dict(site, exc=type(e).__name__), case=case, observed=f"{type(e).__name__}: {e}"[:300], expected=sorted(doms))
+    if isinstance(ov, str):
+        import numpy as np
+
+        ov = np.int64(100) if ov == "i64" else np.float32(100)
     refs = {float(ov)} if ov else {float(x) for x in doms}
     # scroll speed
     ctx.transition()
